@@ -12,7 +12,8 @@ NOTE = ('Trusted base: z3/cvc5, the symx shim (Sym operator overloading, NumPy p
 
 CHECKS = {
     'C05': ('3/C05', 'Every claim about the mesh construction methods (step choice, one loop iteration from an arbitrary grid plane, '
-            'bounded whole loop, boundary merge) is an SMT query over all real-valued inputs inside the stated bounds; unsat = holds.'),
+            'bounded whole loop, boundary merge) is an SMT query over all real-valued inputs inside the stated bounds; unsat = holds.  '
+            'The order of the set-up calls is checked on enumerated real Reactors (every requirement incl. the gap recomputed with the real routines).'),
 }
 
 CHECKS['C14'] = ('3/C14', 'The real per-step pressure-drop methods are run over an arbitrary symbolic partition of a region (planes, '
@@ -33,7 +34,8 @@ CHECKS['C19'] = ('3/C19', 'hotspot.calculate_temps, the clad split, expression e
 
 CHECKS['C15'] = ('3/C15', 'The real running-maximum updates (coolant, per-duct mid-wall, pin locations with radial profile) are applied '
                  'one to three times from an arbitrary previous peak to arbitrary symbolic fields; every ordering is a path and the '
-                 'maximum / height / profile / untouched-duct claims are SMT queries; induction over the fold gives the sweep maximum.')
+                 'maximum / height / profile / untouched-duct claims are SMT queries; induction over the fold gives the sweep maximum.  Peak store and the '
+                 'coolant / duct summary tables are additionally checked on enumerated real sweeps (public path, values read back from the printed tables).')
 
 CHECKS['C11'] = ('3/C11', 'The real duct-wall solvers run with all temperatures, film coefficients, conductivity, thickness and wall '
                  'power symbolic on a real bundle (1-3 ducts) and on both low-fidelity regions; both flux boundary conditions, the '
@@ -60,7 +62,8 @@ CHECKS['C10'] = ('3/C10', 'Boundary arrays from the real calculate_xbnds/_calcul
 
 CHECKS['C06'] = ('3/C06', 'Self-composition over the real clone code: A cloned next to a sibling that updated its material last vs A cloned '
                  'alone, real Material objects with property tables as uninterpreted functions; the solver decides whether the two explicit '
-                 'steps can differ.  The object graph after the real clone methods and in a real Reactor is checked for shared stateful objects.')
+                 'steps can differ.  The object graph after the real clone methods and in a real Reactor is checked for shared stateful objects; on enumerated '
+                 'real Reactors one assembly is advanced and every number reachable from the others must be unchanged, and every assembly is compared with its stand-alone twin.')
 
 CHECKS['C12'] = ('3/C12', 'For each of the 120 accepted correlation combinations the real correlated-parameter routines run on a real bundle '
                  'with a symbolic viscosity (bundle Re in (10, 1e6)); every regime combination of the three correlation families is a '
